@@ -17,13 +17,14 @@ Three Hypothesis parts over ``tornado.httputil.parse_body_arguments`` /
   the only part of a body, i.e. it may not depend on its siblings; no extra keys), through both entry points, also when the dictionaries were pre-populated.  Then the
   same body is re-parsed with ``ParseMultipartConfig`` limits around its own part count ``k`` and
   header size ``h``: ``max_parts < k`` must be rejected, ``max_parts >= k`` accepted;
-  ``max_part_header_size < h`` rejected, ``>= h+4`` accepted (``h`` = bytes of the header lines
-  without the blank line; the 4-byte window ``h..h+3`` is EITHER because "size of the headers" may
-  or may not count the terminating CRLFCRLF); ``enabled=False`` must raise ``HTTPInputError``.  The same
+  ``max_part_header_size < h`` rejected, every limit ``>= h`` accepted — checked at ``h, h+1, h+2, h+3, h+4``
+  (``h`` = bytes of the largest part's header lines up to, not including, the blank-line terminator:
+  the terminator separates the headers from the content and is not counted; this is how the tree
+  counts, the docs are silent on it); ``enabled=False`` must raise ``HTTPInputError``.  The same
   edges are then configured through the documented global channel ``set_parse_body_config()`` (previous
   configuration restored in ``finally``) and both entry points are called *without* ``config=``: the
-  limits in force at call time must apply (k parts accepted at max_parts=k, rejected at k-1; header
-  h-1 rejected; ``enabled=False`` rejected).
+  limits in force at call time must apply (k parts accepted at max_parts=k together with a header
+  limit from ``h..h+4``, rejected at k-1; header h-1 rejected; ``enabled=False`` rejected).
 * ``mutate``: one or two single-byte mutations (replace/insert/delete) of such an encoded body or of
   its Content-Type, random small limits, optional ``Content-Encoding`` header.
 * ``arbitrary``: bodies glued from delimiter/header/garbage fragments under odd content types.
@@ -60,6 +61,10 @@ Sensitivity (quick tier, seed 1, one mutant at a time on a scratch copy):
     default, call-time ``if config is None`` lookup removed (direct calls keep the import-time limits
     after ``set_parse_body_config``) ...................................... caught
     (C30.global_limit_parts_over_accepted via parse_multipart_form_data)
+
+  * header terminator searched only within the limit (``part.find(b"\\r\\n\\r\\n", 0, max_part_header_size)``,
+    "not found" = too large): limits ``h..h+3`` refuse a body that is within the limit ... caught
+    (C30.limit_header_within_rejected via config=, C30.global_limit_within_rejected via the global channel)
 
 Findings of this check (write-ups in findings_inbox/; both since repaired in /repo and marked fixed,
 their replays under replays/C30/ now hold as regression replays):
@@ -103,7 +108,8 @@ ASSUMPTIONS = [
     "the urlencoded / RFC 7578 + RFC 2231/5987 encoders written in this module are correct",
     "urlencoded names come back as the latin-1 view of their UTF-8 bytes (documented in parse_qs_bytes)",
     "'max number of parts accepted' counts the parts of the body (not the empty text before the first "
-    "delimiter); 'size of the headers' is between h and h+4 bytes for header lines of h bytes",
+    "delimiter); 'size of the headers' of a part = the h bytes of its header lines without the blank-line "
+    "terminator (docs silent on the terminator; this is the tree's counting), so limits >= h admit it",
     "clean failure is asserted at parse_body_arguments (the entry point every caller uses); direct calls "
     "of parse_multipart_form_data are only made with well-formed bodies",
     "filename* wins or loses against a plain filename fallback: either is accepted",
@@ -679,14 +685,16 @@ def run_form(ctx, case):
         ok, msg, a3, f3 = limited(max_parts=big, max_part_header_size=h - 1)
         if ok:
             ctx.fail("C30.limit_header_over_accepted", {"h": h, "max_part_header_size": h - 1, "body": body})
-        ok, msg, a3, f3 = limited(max_parts=big, max_part_header_size=h + 4)
-        if not ok:
-            ctx.fail("C30.limit_header_within_rejected", {"h": h, "max_part_header_size": h + 4, "body": body, "raised": msg})
-        else:
-            exact(clause, a3, f3, {"via": "max_part_header_size=h+4"})
-        ok, msg, a3, f3 = limited(max_parts=big, max_part_header_size=h + (len(body) % 4))  # EITHER window
-        if ok:
-            exact(clause, a3, f3, {"via": "max_part_header_size in h..h+3"})
+        # exact edge: every limit >= h admits this body (the blank-line terminator is not part of "the
+        # headers"), in particular h, h+1, h+2, h+3 where an implementation that needs the terminator
+        # inside the limit would refuse it
+        for extra in (0, 1, 2, 3, 4):
+            ok, msg, a3, f3 = limited(max_parts=big, max_part_header_size=h + extra)
+            if not ok:
+                ctx.fail("C30.limit_header_within_rejected",
+                         {"h": h, "max_part_header_size": h + extra, "body": body, "raised": msg})
+            else:
+                exact(clause, a3, f3, {"via": "max_part_header_size=h+%d" % extra})
     ok, msg, a3, f3 = limited(enabled=False)
     if ok:
         ctx.fail("C30.disabled_accepted", {"body": body})
@@ -711,9 +719,10 @@ def run_form(ctx, case):
     labels.add("global_config_limits")
     for via in ("parse_body_arguments", "parse_multipart_form_data"):
         d = {"via": via + " with set_parse_body_config", "k": k, "h": h, "body": body}
-        ok, msg, a4, f4 = with_global(via, max_parts=k, max_part_header_size=h + 4)
+        within = h + (len(body) + (via == "parse_multipart_form_data")) % 5  # h..h+4, varies over cases/entry points
+        ok, msg, a4, f4 = with_global(via, max_parts=k, max_part_header_size=within)
         if not ok:
-            ctx.fail("C30.global_limit_within_rejected", dict(d, max_parts=k, max_part_header_size=h + 4, raised=msg))
+            ctx.fail("C30.global_limit_within_rejected", dict(d, max_parts=k, max_part_header_size=within, raised=msg))
         else:
             exact(clause, a4, f4, {"via": d["via"]})
         if k >= 1:
